@@ -30,6 +30,9 @@ def gen_objects(rng, keys, n_beats, divs, density, start_beat=0):
                 else:
                     end = b + F(rng.randint(1, 4 * rng.choice([1, 2, 3, 4])), rng.choice(divs))
                     objs.append([rng.choice(["hold", "hold", "roll"]), col, fs(b), fs(end)])
+                    if rng.random() < 0.2:
+                        mid = (b + end) / 2   # e.g. a mine on the held column, between head and tail
+                        objs.append([rng.choice(["mine", "mine", "hit", "fake"]), col, fs(mid), None])
                 b = end
             d = rng.choice(divs)
             b = b + F(rng.randint(1, 2 * d), d)
@@ -82,14 +85,14 @@ def gen_spec(rng, cls):
             rng.shuffle(objs)
         if rng.random() < 0.1:
             objs = []  # a difficulty that is set up but not stepped yet is a chart all the same
-        charts.append(dict(type=ctype, desc=rng.choice(SAFE), diff=rng.choice(["Easy", "Hard", "Edit", "Challenge"]),
+        charts.append(dict(type=ctype, desc=rng.choice(SAFE + ["K. Ward's edit v2 final", "a description of more than twelve characters"]), diff=rng.choice(["Easy", "Hard", "Edit", "Challenge"]),
                            meter=rng.randint(1, 25), objects=objs))
     hdr = {k: rng.choice(SAFE) for k in ["title", "subtitle", "artist", "title_translit", "subtitle_translit",
                                           "artist_translit", "genre", "credit", "banner", "background",
                                           "lyrics_path", "cd_title", "music", "display_bpm", "bg_changes", "fg_changes"]}
     return dict(cls=cls, offset=offset, tempo=tempo, charts=charts, header=hdr,
                 selectable=False if cls == "selectable_false" else rng.choice([True, True, False]),
-                sample_start=rng.choice([0.0, 12500.0, 30000.0]), sample_length=rng.choice([10.0, 15500.0]))
+                sample_start=rng.choice([0.0, 12500.0, 30000.0, -1.0, -2500.0]), sample_length=rng.choice([10.0, 15500.0]))
 
 
 def build(spec):
